@@ -11,20 +11,25 @@
 (* already suppressed, column).  FALSE = the behaviour of the pinned tree.  *)
 (***************************************************************************)
 EXTENDS Naturals, Integers, Sequences, FiniteSets, TLC, Json, GroupCfg
-CONSTANTS NSet, LevelSet, Alphabet, CapSet, NullAware, HierOnOriginal
+CONSTANTS NSet, LevelSet, Alphabet, CapSet, NullAware, HierOnOriginal,
+          SpellSet,     \* how the abstract key symbols are written in the frame: "plain" (a, b, c) or "collide" (level-dependent
+                        \* digit strings whose plain concatenation is the same for different key tuples: ("1","12") / ("11","2"))
+          OrderSet      \* order of the group_by columns in the frame: "asc" (as listed in group_by) or "rev" (reversed)
 VARIABLES cfg, d, phase, lev, pg, shown, outcome
 vars == <<cfg, d, phase, lev, pg, shown, outcome>>
 
-Cfg0 == [nlev |-> 1, n |-> 1, keys |-> <<>>, cap |-> 100]
+Cfg0 == [nlev |-> 1, n |-> 1, keys |-> <<>>, cap |-> 100, spell |-> "plain", gorder |-> "asc"]
 Init == cfg = Cfg0 /\ d = 1 /\ phase = "pick" /\ lev = 1 /\ pg = 2 /\ shown = <<>> /\ outcome = "none"
-Pick == /\ phase = "pick" /\ d <= 4
+Pick == /\ phase = "pick" /\ d <= 6
         /\ CASE d = 1 -> \E v \in LevelSet : cfg' = [cfg EXCEPT !.nlev = v] /\ d' = 2
              [] d = 2 -> \E v \in NSet : cfg' = [cfg EXCEPT !.n = v] /\ d' = 3
              [] d = 3 -> IF Len(cfg.keys) >= cfg.n THEN cfg' = cfg /\ d' = 4
                          ELSE \E k \in [1..cfg.nlev -> Alphabet] : cfg' = [cfg EXCEPT !.keys = Append(@, k)] /\ d' = 3
              [] d = 4 -> \E v \in CapSet : cfg' = [cfg EXCEPT !.cap = v] /\ d' = 5
+             [] d = 5 -> \E v \in SpellSet : cfg' = [cfg EXCEPT !.spell = v] /\ d' = 6
+             [] d = 6 -> \E v \in (IF cfg.nlev >= 2 THEN OrderSet ELSE {"asc"}) : cfg' = [cfg EXCEPT !.gorder = v] /\ d' = 7
         /\ UNCHANGED <<phase, lev, pg, shown, outcome>>
-Validate == /\ phase = "pick" /\ d = 5
+Validate == /\ phase = "pick" /\ d = 7
             /\ IF Contiguous(cfg)
                THEN phase' = "suppress" /\ outcome' = "ok"
                     /\ shown' = [r \in 1..cfg.n |-> [l \in 1..cfg.nlev |-> TRUE]]
